@@ -12,7 +12,8 @@
 EXTENDS Rpc
 
 Plans == JsonDeserialize("plans.json")
-\* << [svc, methods |-> << <<service, method>> >>, max, vals |-> 0 (all) | n, raw |-> BOOLEAN] >>
+\* << [svc, methods |-> << <<service, method>> >>, max, vals |-> 0 (all) | n, raw |-> BOOLEAN (unknown method injected),
+\*     rawknown |-> BOOLEAN (known methods injected with perturbed argument encodings)] >>
 
 RECURSIVE Take(_, _)
 Take(S, n) == IF n = 0 \/ S = {} THEN {} ELSE LET x == CHOOSE x \in S : TRUE IN {x} \cup Take(S \ {x}, n - 1)
@@ -76,35 +77,72 @@ RawBody == <<[t |-> "SB"], [t |-> "FB", ty |-> 8, id |-> 1], [t |-> "V", ty |-> 
 RawName == "no_such_method"
 RawSeq == 77
 
+\* perturbed encodings of a known method's arguments: the server must find arguments by id whatever their order,
+\* pass over what it does not know, and refuse a request that lacks a required argument
+RECURSIVE ChunksOf(_, _, _), FlatC(_, _)
+ChunksOf(s, v, i) == IF i > Len(Fields(s)) THEN <<>>
+                     ELSE <<FieldChunk(Fields(s)[i], v.s[Fields(s)[i].name])>> \o ChunksOf(s, v, i + 1)
+FlatC(cs, i) == IF i > Len(cs) THEN <<>> ELSE cs[i] \o FlatC(cs, i + 1)
+WrapC(cs) == <<[t |-> "SB"]>> \o FlatC(cs, 1) \o <<[t |-> "STOP"], [t |-> "SE"]>>
+Rev(cs) == [i \in 1..Len(cs) |-> cs[Len(cs) + 1 - i]]
+Without(cs, j) == SubSeq(cs, 1, j - 1) \o SubSeq(cs, j + 1, Len(cs))
+UnkChunk == <<[t |-> "FB", ty |-> 12, id |-> 99], [t |-> "SB"], [t |-> "FB", ty |-> 8, id |-> 1],
+              [t |-> "V", ty |-> 8, a |-> "i32:5"], [t |-> "FE"], [t |-> "STOP"], [t |-> "SE"], [t |-> "FE"]>>
+RawKnown(r) ==
+  LET m == Meth(r)
+      a == CHOOSE a \in ArgVals(r) : TRUE
+      cs == ChunksOf(m.args, a, 1) IN
+  {WrapC(Rev(cs)), WrapC(<<UnkChunk>> \o cs)}
+  \cup {WrapC(Without(cs, i)) : i \in {j \in 1..Len(cs) : Fields(m.args)[j].req = "required"}}
+
 GInit == plan = 0 /\ Init
 
-Client ==
-  /\ Len(reqs) < P.max /\ cli = Idle
-  /\ \/ \E j \in 1..Len(P.methods) :
-          LET r == <<P.methods[j][1], P.methods[j][2]>> IN
-          \E a \in ArgVals(r) : SendCall(r, a, CALL, EncStruct(Meth(r).args, a))
-     \/ P.raw /\ InjectRaw(RawName, RawSeq, RawBody)
+On == plan # 0 /\ UNCHANGED plan
 
-Server ==
-  \/ SrvReadHeader
-  \/ SrvSkipUnknown
-  \/ SrvUnknownMethod(AppExcToks(UNKNOWN_METHOD))
-  \/ SrvReadArgs
-  \/ srv.st = "args" /\ \E o \in Outcomes(Meth(srv.r)) : SrvInvoke(o)
-  \/ srv.st = "done" /\ srv.out.k # "other" /\ ~Meth(srv.r).oneway
-       /\ SrvReply(EncStruct(Meth(srv.r).result, ResultValue(Meth(srv.r), srv.out)))
-  \/ SrvAppException(AppExcToks(INTERNAL_ERROR))
-  \/ SrvOnewayDone
+PickPlan == plan = 0 /\ \E p \in 1..Len(Plans) : plan' = p /\ Pick(Plans[p].svc)
+GSendCall ==
+  /\ On /\ Len(reqs) < P.max /\ cli = Idle
+  /\ \E j \in 1..Len(P.methods) :
+       LET r == <<P.methods[j][1], P.methods[j][2]>> IN
+       \E a \in ArgVals(r) : SendCall(r, a, CALL, EncStruct(Meth(r).args, a))
+GInjectRaw ==
+  /\ On /\ Len(reqs) < P.max /\ cli = Idle /\ P.raw
+  /\ \/ InjectRaw(RawName, RawSeq, RawBody)
+     \/ /\ P.rawknown
+        /\ \E j \in 1..Len(P.methods) :
+             LET r == <<P.methods[j][1], P.methods[j][2]>> IN
+             \E toks \in RawKnown(r) : InjectRaw(Meth(r).name, RawSeq + j, toks)
+GSrvReadHeader == On /\ SrvReadHeader
+GSrvSkipUnknown == On /\ SrvSkipUnknown
+GSrvUnknownMethod == On /\ SrvUnknownMethod(AppExcToks(UNKNOWN_METHOD))
+GSrvReadArgs == On /\ SrvReadArgs
+\* raw requests: one outcome of each kind is enough
+FewOutcomes(m) ==
+  LET O == Outcomes(m) IN
+  UNION {Take({o \in O : o.k = kk /\ "also" \notin DOMAIN o /\ ("var" \in DOMAIN o => o.var = "plain")}, 1) :
+           kk \in {"val", "void", "exc", "other"}}
+GSrvArgsError == On /\ SrvArgsError
+GSrvProtocolError == On /\ SrvProtocolError(AppExcToks(PROTOCOL_ERROR))
+GSrvArgsErrorSilent == On /\ SrvArgsErrorSilent
+GSrvInvoke == /\ On /\ srv.st = "args"
+              /\ \E o \in (IF reqs[srv.k].kind = "raw" THEN FewOutcomes(Meth(srv.r)) ELSE Outcomes(Meth(srv.r))) : SrvInvoke(o)
+GSrvReply == /\ On /\ srv.st = "done" /\ srv.out.k # "other" /\ ~Meth(srv.r).oneway
+             /\ SrvReply(EncStruct(Meth(srv.r).result, ResultValue(Meth(srv.r), srv.out)))
+GSrvAppException == On /\ SrvAppException(AppExcToks(INTERNAL_ERROR))
+GSrvOnewayDone == On /\ SrvOnewayDone
+GCliRecv == On /\ CliRecv
 
-GNext == \/ plan = 0 /\ \E p \in 1..Len(Plans) : plan' = p /\ Pick(Plans[p].svc)
-         \/ plan # 0 /\ UNCHANGED plan /\ (Client \/ Server \/ CliRecv)
+GNext == \/ PickPlan \/ GSendCall \/ GInjectRaw \/ GSrvReadHeader \/ GSrvSkipUnknown \/ GSrvUnknownMethod \/ GSrvReadArgs
+         \/ GSrvArgsError \/ GSrvProtocolError \/ GSrvArgsErrorSilent \/ GSrvInvoke \/ GSrvReply \/ GSrvAppException \/ GSrvOnewayDone \/ GCliRecv
 
 gvars == <<plan, vars>>
 
 \* ---- case export
 ArgList(c) == LET s == Meth(c.r).args IN [i \in FieldIdx(s) |-> c.a.s[Fields(s)[i].name]]
 CaseCall(c) ==
-  IF c.kind = "raw" THEN [raw |-> c.name, seq |-> c.seq, mt |-> CALL, body |-> RawBody, exp |-> c.res]
+  IF c.kind = "raw"
+  THEN [raw |-> c.name, seq |-> c.seq, mt |-> CALL, body |-> c.body, out |-> c.out, exp |-> c.res, seen |-> c.seen,
+        known |-> c.r # <<0, 0>>, ds |-> IF c.r # <<0, 0>> THEN Services[c.r[1]].name ELSE ""]
   ELSE [m |-> c.name, ds |-> Services[c.r[1]].name, args |-> ArgList(c), out |-> c.out, lag |-> c.lag,
         exp |-> c.res, seen |-> IF IsNone(c.seen) THEN c.seen ELSE Norm(ArgType(c.r), c.a, FALSE)]
 
